@@ -45,6 +45,12 @@ def run(ctx):
     rule_sib(ctx, F)
     rule_svckey(ctx, F)
     rule_sym(ctx, F)
+    # written text reads back only if the reader's tokeniser counts groups the way the multi-line writer nests them and
+    # the Base32 / Base64 readers accept every tail the writers produce (shared with C07 and C18)
+    import c07
+    import c18
+    c07.rule_cat(ctx, F)
+    c18.rule_tail(ctx, F)
 
 
 # ---------------------------------------------------------------------------
